@@ -916,6 +916,73 @@ def g_long_pos_ties(F, rng, tier):
     return out
 
 
+def first_in_range(a, m, l, r):
+    """smallest x >= 0 with l <= (a x) mod m <= r (0 <= l <= r < m), or None: Euclid-like descent (checked against brute
+    force by bin/selftest-free reasoning: 20 000 random small cases)"""
+    a %= m
+    if l == 0:
+        return 0
+    if a == 0:
+        return None
+    if 2 * a > m:
+        return first_in_range(m - a, m, m - r, m - l)
+    k = (l + a - 1) // a
+    if k * a <= r:
+        return k
+    y = first_in_range((a - m % a) % a, a, l % a, r % a)
+    if y is None:
+        return None
+    return (l + m * y + a - 1) // a
+
+
+def midword_products(F, rng, quick, wmax):
+    """(w, q), 1 <= q <= 27, w < wmax: the exact product P = w x 5^q is longer than 64 bits and its TOP 64 bits are the
+    exact midpoint pattern of the format (p bits, a one, zeros) or one below it (p bits, a zero, ones) while bits remain
+    below the 64-bit window - a 64-bit rounding of the product lands exactly on the midpoint although the value is not
+    one.  The constraint is on the MIDDLE bits of P: a modular interval, solved with `first_in_range`."""
+    out = []
+    for qq in range(1, 28):
+        f5 = 5 ** qq
+        for L in range(66, 64 + F.p + 40, 1 if not quick else 2):
+            wlo, whi = max((1 << F.p) + 1, -(-(1 << (L - 1)) // f5)), min(wmax, (1 << L) // f5)
+            if whi - wlo < 1000:
+                continue
+            k = L - F.p                      # bits of P below the p-bit significand
+            tail = L - 64                    # bits of P below the 64-bit window
+            mod = 1 << (k + 1)               # also fixes the parity of the significand
+            a = f5 % mod
+            for par in (0, 1):
+                for side in (0, 1):
+                    base = (par << k) | (1 << (k - 1))
+                    lo_, hi_ = (base + 1, base + (1 << tail) - 1) if side == 0 else (base - (1 << tail) + 1, base - 1)
+                    t = rng.randrange(wlo, whi)
+                    sh = (a * t) % mod
+                    l2, r2 = (lo_ - sh) % mod, (hi_ - sh) % mod
+                    if l2 > r2:
+                        continue
+                    x = first_in_range(a, mod, l2, r2)
+                    if x is None or t + x >= whi:
+                        continue
+                    w = t + x
+                    P = w * f5
+                    assert P.bit_length() == L and lo_ <= P % mod <= hi_
+                    out.append((w, qq))
+    return out
+
+
+def g_midword_products(F, rng, tier):
+    """G35: the (w, q) above as parse inputs, for w below 2^40 (narrow significands: the exact-large-power case of a
+    two-table scheme) and for any w below 10^19"""
+    out = []
+    q = tier == "quick"
+    for wmax in (1 << 40, 10 ** 19):
+        for (w, qq) in midword_products(F, rng, q, wmax):
+            out.append(mk(F.name, str(w), "", qq, "G35:midword-product"))
+            if w % 10:
+                out.append(mk(F.name, str(w) + "0", "", qq - 1, "G35:midword-product"))
+    return out
+
+
 def g_limb_crossers(F, rng, tier):
     """G24: halfway points between SUBNORMALS m and m+1 for which an intermediate of the stepped power (2m+1) x 5^(135 i)
     lands just above a limb boundary 2^(64 j) (its top limb is a small number): there the partial products of the long
